@@ -435,6 +435,124 @@ where
 	Ok(())
 }
 
+/// Construction histories of an owned bit vector: the storage words keep stale bits beyond `len`
+/// (after pop / truncate / negation / repeat), which must never reach the encoding.
+pub fn bitvec_history<S: BitStore + Encode, O: OrderModel>(g: &mut Gen, stats: &mut Stats) -> Result<(), Violation>
+where
+	BitVec<S, O>: Modeled + Encode,
+{
+	let ty = <BitVec<S, O> as Modeled>::ty();
+	let name = ty.short_name();
+	let mut model: Vec<bool> = vec![];
+	let mut bv: BitVec<S, O> = match g.below(3) {
+		0 => BitVec::new(),
+		1 => {
+			let n = g.below(70);
+			model = vec![true; n];
+			BitVec::repeat(true, n)
+		},
+		_ => BitVec::with_capacity(g.below(200)),
+	};
+	let mut trace = vec![format!("start(len {})", model.len())];
+	let mut shrunk = false;
+	for _ in 0..2 + g.below(14) {
+		match g.below(12) {
+			0 | 1 | 2 => {
+				let n = 1 + g.below(20);
+				let mut st = g.stream();
+				for _ in 0..n {
+					let b = st.next() & 1 == 1 || g.chance(128);
+					bv.push(b);
+					model.push(b);
+				}
+				trace.push(format!("push x{n}"));
+			},
+			3 | 4 => {
+				let n = 1 + g.below(9);
+				for _ in 0..n {
+					bv.pop();
+					model.pop();
+				}
+				shrunk = true;
+				trace.push(format!("pop x{n}"));
+			},
+			5 => {
+				let n = g.below(model.len() + 1);
+				bv.truncate(n);
+				model.truncate(n);
+				shrunk = true;
+				trace.push(format!("truncate({n})"));
+			},
+			6 => {
+				bv = !bv;
+				model.iter_mut().for_each(|b| *b = !*b);
+				trace.push("negate".into());
+			},
+			7 if !model.is_empty() => {
+				let at = g.below(model.len() + 1);
+				let tail = bv.split_off(at);
+				let mtail = model.split_off(at);
+				if g.bool() {
+					// keep the tail instead (its head sits at a non-zero bit offset)
+					bv = tail;
+					model = mtail;
+					trace.push(format!("split_off({at}) keep tail"));
+				} else {
+					trace.push(format!("split_off({at}) keep head"));
+				}
+				shrunk = true;
+			},
+			8 if !model.is_empty() => {
+				let i = g.below(model.len());
+				let b = g.bool();
+				bv.set(i, b);
+				model[i] = b;
+				trace.push(format!("set({i})"));
+			},
+			9 => {
+				bv.fill(true);
+				model.iter_mut().for_each(|b| *b = true);
+				trace.push("fill(true)".into());
+			},
+			10 => {
+				bv.shrink_to_fit();
+				trace.push("shrink_to_fit".into());
+			},
+			_ if !model.is_empty() => {
+				let i = g.below(model.len());
+				bv.remove(i);
+				model.remove(i);
+				shrunk = true;
+				trace.push(format!("remove({i})"));
+			},
+			_ => {},
+		}
+		let want = ref_encode(&ty, &Val::Bits(model.clone()));
+		let got = guard(|| bv.encode()).map_err(|p| Violation::new("C06/panic/bitvec", format!("{name}: {p}; history {trace:?}")))?;
+		let fresh: BitVec<S, O> = model.iter().copied().collect();
+		if got != want || fresh.encode() != got || bv.as_bitslice().encode() != got || bv.clone().into_boxed_bitslice().encode() != got {
+			return Err(Violation::new(
+				format!("C06/bitvec-history/{name}"),
+				format!(
+					"{name} history {trace:?}: owned vector encodes to {}, its bits encode to {} (fresh copy {}, as slice {})",
+					hex(&got),
+					hex(&want),
+					hex(&fresh.encode()),
+					hex(&bv.as_bitslice().encode())
+				),
+			));
+		}
+	}
+	stats.eval();
+	stats.class(&format!("bitvec-history:{name}"));
+	if shrunk && model.len() % (std::mem::size_of::<S>() * 8) != 0 {
+		stats.class("bitvec encode after shrinking (stale storage bits)");
+		stats.nontrivial(&(name.as_str(), &trace));
+	}
+	stats.sample(|| json!({"structure": name, "history": trace}));
+	Ok(())
+}
+
 pub fn holder_history<T: Modeled + Encode + Clone + EncodeLike<T>>(g: &mut Gen, stats: &mut Stats) -> Result<(), Violation> {
 	let v: T = {
 		let mut cfg = GenCfg { budget: 200, ..GenCfg::default() };
@@ -522,7 +640,15 @@ pub fn tape_checks(_ctx: &Ctx) -> Vec<(&'static str, Box<CheckFn<'_>>)> {
 		),
 		(
 			"bits",
-			Box::new(|g: &mut Gen, st: &mut Stats| match g.below(8) {
+			Box::new(|g: &mut Gen, st: &mut Stats| match g.below(16) {
+				8 => bitvec_history::<u8, Lsb0>(g, st),
+				9 => bitvec_history::<u8, Msb0>(g, st),
+				10 => bitvec_history::<u16, Lsb0>(g, st),
+				11 => bitvec_history::<u16, Msb0>(g, st),
+				12 => bitvec_history::<u32, Lsb0>(g, st),
+				13 => bitvec_history::<u32, Msb0>(g, st),
+				14 => bitvec_history::<u64, Lsb0>(g, st),
+				15 => bitvec_history::<u64, Msb0>(g, st),
 				0 => bits_history::<u8, Lsb0>(g, st),
 				1 => bits_history::<u8, Msb0>(g, st),
 				2 => bits_history::<u16, Lsb0>(g, st),
@@ -552,7 +678,7 @@ pub fn run(ctx: &Ctx) -> (Level, Report) {
 	for (name, check) in tape_checks(ctx) {
 		let quick = match name {
 			"deque" => 30_000,
-			"bits" => 6_000,
+			"bits" => 12_000,
 			_ => 30_000,
 		};
 		let out = ctx.random(name, quick, 20, 4096, &*check);
@@ -565,7 +691,7 @@ pub fn run(ctx: &Ctx) -> (Level, Report) {
 (push/pop at both ends, rotate, make_contiguous, reserve, shrink_to_fit, insert, remove, truncate, fill-to-capacity-and-cycle; all 12 primitive \
 element types plus String, Option<u16>, (u8,u32), ()); Vec/String capacity histories; BTreeMap/BTreeSet insertion/removal orders and \
 permutations of the same final content; LinkedList push/split_off/append; BinaryHeap push/pop (own iteration order + multiset round trip); \
-bit sequences: sub-slices at every start offset 0..=70 for all eight store/order pairs against a freshly built vector; holders: Box, Rc, Arc, \
+bit sequences: sub-slices at every start offset 0..=70 for all eight store/order pairs against a freshly built vector, and owned-vector histories (push, pop, truncate, negate, split_off keeping either half, set, fill, remove, shrink_to_fit, repeat(true)) that leave stale bits in the storage words; holders: Box, Rc, Arc, \
 &, &&, &mut, Cow borrowed/owned, Ref and clone/borrow/own transitions. Oracle: encoding == reference encoding of the logical content == \
 fresh copy's encoding == second encoding. Non-trivial = an encode with the ring wrapped / after a removal / at a non-zero bit offset / with \
 spare capacity.",
